@@ -1062,6 +1062,9 @@ func c39Search(t *testing.T, c *mc.Check, st *c39Stats, cfg c39Cfg, roots [][]c3
 func TestVerifC39(t *testing.T) {
 	c := mc.Begin(t, "C39", "model_checking")
 	defer c.End()
+	// the whole search is serial (process-global clock and randomness); one P keeps the node assembly's goroutine hand-off
+	// on this thread, which matters on an oversubscribed machine
+	defer runtime.GOMAXPROCS(runtime.GOMAXPROCS(1))
 	st := &c39Stats{trans: map[string]int64{}}
 
 	// determinism: one fixed history twice — identical wire bytes and canonical state
